@@ -46,7 +46,16 @@ def pointer_funcs(ctx: Ctx) -> List[FuncInfo]:
     mod = ctx.repo.modules.get("jsonpath.pointer")
     if mod is None:
         raise AnalysisError("jsonpath/pointer.py not found")
-    return [f for f in ctx.repo.functions.values() if f.module is mod]
+    own = [f for f in ctx.repo.functions.values() if f.module is mod]
+    # ... and what they call in the package's private helper modules (`jsonpath/_pointer_codec.py`, `_rfc6901.py`): code
+    # moved out of pointer.py is still the pointer's code
+    try:
+        reach = ctx.callgraph.reachable(own)
+    except Exception:  # noqa: BLE001
+        reach = {}
+    extra = [ctx.repo.functions[q] for q in reach if q in ctx.repo.functions and ctx.repo.functions[q].module is not mod
+             and ctx.repo.functions[q].module.name.split(".")[-1].startswith("_") and ctx.repo.functions[q].module.name not in ("jsonpath._data",)]
+    return own + [f for f in extra if f not in own]
 
 
 def r4_1(ctx: Ctx, rule: str = "R4.1") -> RuleResult:
@@ -54,12 +63,19 @@ def r4_1(ctx: Ctx, rule: str = "R4.1") -> RuleResult:
     decoders = []
     encoders = []
     for fn in pointer_funcs(ctx):
+        # (successive statements `s = s.replace(a, b)` - a table of escapes written out - are one chain)
+        dec_parts, enc_parts = [], []
         for call, base, chain in outermost_replace_chains(fn.node):
             srcs = [a for a, _ in chain]
             if "~1" in srcs or "~0" in srcs:
-                decoders.append((fn, call, chain))
+                dec_parts.append((call, chain))
             elif any(b in ("~0", "~1") for _, b in chain):
-                encoders.append((fn, call, chain))
+                enc_parts.append((call, chain))
+        for parts_, sink in ((dec_parts, decoders), (enc_parts, encoders)):
+            if len(parts_) > 1 and all(len(ch) == 1 for _c, ch in parts_):
+                sink.append((fn, parts_[0][0], [p_ for _c, ch in sorted(parts_, key=lambda t: (t[0].lineno, t[0].col_offset)) for p_ in ch]))
+            else:
+                sink.extend((fn, c_, ch) for c_, ch in parts_)
     for fn, call, chain in decoders:
         pairs = [p for p in chain if p[0] in ("~0", "~1")]
         if ("~1", "/") not in pairs or ("~0", "~") not in pairs:
@@ -106,10 +122,9 @@ def r4_1(ctx: Ctx, rule: str = "R4.1") -> RuleResult:
                 else:
                     rr.bad(fn, c, f"the encoder must map `~` to `~0` and `/` to `~1`; the translation table is {norm}",
                            construct=f"encode table {sorted(norm.items())}")
-    if not encoders and not n_translate:
-        raise AnalysisError(f"{rule}: no reference-token encoder found in pointer.py")
-    if not decoders:
-        raise AnalysisError(f"{rule}: no reference-token decoder found in pointer.py")
+    if (not encoders and not n_translate) or not decoders:
+        # neither idiom (the escapes may live in a table that a loop walks): the codec is executed instead
+        return _codec_on_samples(ctx, rule, rr)
     # both entry points that take pointer text decode its tokens (directly or through a helper)
     dec_funcs = {fn.qualname for fn, _, _ in decoders}
     for name in ("JSONPointer._parse", "JSONPointer.__truediv__"):
@@ -120,6 +135,55 @@ def r4_1(ctx: Ctx, rule: str = "R4.1") -> RuleResult:
         else:
             rr.bad(fn, fn.node, f"{fn.qualname} takes pointer text but never decodes `~0` / `~1`",
                    construct=f"{fn.name}: no token decoding")
+    return rr
+
+
+def _codec_on_samples(ctx: Ctx, rule: str, rr: RuleResult) -> RuleResult:
+    """The reference-token codec by abstract execution (rules/model.py): for tokens that cover the two escapes and
+    their interplay, `from_parts([token])` must print `/` + the RFC 6901 escape of the token, parsing that text must
+    give the token back, and so must joining it with `/` (the second place that decodes)."""
+    from sa.peval import UNKNOWN
+
+    from .model import RAISES
+    from .model import ClassModel
+    from .model import MObj
+    from .model import Model
+    from .model import _ConstructorRaises
+
+    P = "jsonpath.pointer.JSONPointer"
+    cls = ctx.repo.require_class(P)
+    enc = ctx.repo.find_method(cls, "_encode") or ctx.repo.find_method(cls, "__str__")
+    par = ctx.repo.find_method(cls, "_parse")
+    if enc is None or par is None:
+        raise AnalysisError(f"{rule}: JSONPointer._encode / _parse not found")
+    model = Model(ctx, rule)
+    model.whole_bodies = model.auto_construct = model.exact_exceptions = model.heap = True
+    cm = ClassModel(model, P, {})
+    for tok in ("~", "/", "~1", "~0", "~01", "~10", "~~", "//", "a/b~c", "~/", "/~", "x", ""):
+        want = "/" + tok.replace("~", "~0").replace("/", "~1")
+        built = model.call(cm, "from_parts", [[tok]], {"unicode_escape": False})
+        text = model.call(built, "__str__", []) if isinstance(built, MObj) else UNKNOWN
+        if text is UNKNOWN or text is RAISES:
+            raise AnalysisError(f"{rule}: how the token {tok!r} is encoded cannot be determined")
+        if text != want:
+            rr.bad(enc, enc.node, f"the reference token {tok!r} is written as {text!r}; RFC 6901 spells it {want!r} (`~` becomes `~0` first, then `/` becomes `~1`)",
+                   construct=f"encode {tok!r} -> {text!r}")
+            continue
+        try:
+            parsed = model.new(P, want, unicode_escape=False)
+        except _ConstructorRaises:
+            rr.bad(par, par.node, f"the pointer {want!r} is refused", construct=f"parse {want!r} raises")
+            continue
+        joined = model.call(model.new(P, "", unicode_escape=False), "__truediv__", [want[1:]]) if True else None
+        got1 = parsed.fields.get("parts")
+        got2 = joined.fields.get("parts") if isinstance(joined, MObj) else UNKNOWN
+        if got1 is UNKNOWN or got2 is UNKNOWN:
+            raise AnalysisError(f"{rule}: how {want!r} is decoded cannot be determined")
+        if tuple(str(x) for x in got1) != (tok,) or tuple(str(x) for x in got2) != (tok,):  # type: ignore[union-attr]
+            rr.bad(par, par.node, f"the pointer text {want!r} decodes to {got1!r} (parsed) / {got2!r} (joined); RFC 6901 decodes it to the token {tok!r} "
+                   "(`~1` becomes `/` first, then `~0` becomes `~`)", construct=f"decode {want!r} -> {got1!r} / {got2!r}")
+        else:
+            rr.ok(enc.loc(), f"{tok!r} <-> {want!r} (encoder, parser and `/` executed abstractly)")
     return rr
 
 
